@@ -34,6 +34,7 @@ func runC11(c *Ctx, r *Report) {
 	c11PeersFrozen(c, r, "C11.R16")
 	c11AdmissionBeforeDial(c, r, "C11.R17")
 	c11ActiveCheckerStarts(c, r, "C11.R18")
+	c11CleanupPairs(c, r, "C11.R19")
 	c15R6(c, r, "C11.R14") // the health checks in effect are the configured ones: a Caddyfile option never replaces a health-check object an earlier option has filled in
 	// an upstream at its connection limit is not given another connection: every policy returns only upstreams
 	// for which available() (health AND limits) holds - the policy tables of C10 with full pool states
